@@ -1065,6 +1065,11 @@ c16h!(c16_fifo_drop_clear, FifoD, 0, FifoConfig::default(), CB_DROP, OP_CLEAR, S
 c16h!(c16_fifo_drop_evictall, FifoD, 0, FifoConfig::default(), CB_DROP, OP_EVICT_ALL, Some(0));
 // insert / disk-only insert OVER A RESIDENT key: the replaced record's destructor and notification must run outside the lock
 c16h!(c16_fifo_drop_replace, FifoD, 0, FifoConfig::default(), CB_DROP, OP_INSERT, Some(0), 0);
+// ... over the YOUNGER resident key 17: the eviction loop frees the older key 16 and stops, so the old copy of 17 is still
+// resident and goes through the Replace branch of `emplace` (over key 16 the old copy is evicted before the replace)
+c16h!(c16_fifo_drop_replace_younger, FifoD, 0, FifoConfig::default(), CB_DROP, OP_INSERT, Some(0), 1);
+c16h!(c16_lru_drop_replace_younger, LruD, 1, LRU_CFG, CB_DROP, OP_INSERT, Some(0), 1);
+c16h!(c16_fifo_listener_replace_younger, FifoD, 0, FifoConfig::default(), CB_LISTENER, OP_INSERT, Some(0), 1);
 c16h!(c16_fifo_drop_insdisk_resident, FifoD, 0, FifoConfig::default(), CB_DROP, OP_INSERT_DISK, Some(0), 0);
 c16h!(c16_fifo_listener_insdisk_resident, FifoD, 0, FifoConfig::default(), CB_LISTENER, OP_INSERT_DISK, Some(0), 1);
 c16h!(c16_lru_drop_insdisk_resident, LruD, 1, LRU_CFG, CB_DROP, OP_INSERT_DISK, Some(0), 0);
